@@ -306,6 +306,13 @@ func (fc *FuncCtx) execInstr(fr *Frame, st *State, ins ssa.Instruction) {
 		}
 		v := Fresh("iface", SInt)
 		st.assume(And(Lt(IntLit(0), v), Le(v, st.alloc)))
+		if xv.T != nil {
+			// remember what was boxed (used to model fmt.Sprintf("%d", n) as an injective function of n)
+			if fc.p.boxed == nil {
+				fc.p.boxed = map[*Term]boxedVal{}
+			}
+			fc.p.boxed[v] = boxedVal{xv.T, x.X.Type()}
+		}
 		fr.regs[x] = Val{T: v}
 	case *ssa.TypeAssert:
 		xv := fc.value(fr, x.X)
